@@ -43,7 +43,7 @@ def make_config(rng: random.Random):
     cfg = dict(ny=ny, nx=nx, layout=layout, ns=ns, dtype=dtype, nodata=nodata, crs=rng.choice(["EPSG:3857", "EPSG:4326", "EPSG:32633", "EPSG:3577"]), rotated=rng.random() < 0.2,
                blocksize=rng.choice([None, None, 16, 64, 100, 256, 512, 48]), ovr_blocksize=rng.choice([None, None, 16, 64]), overviews=ovr, windowed=rng.random() < 0.25,
                intermediate=rng.choice([False, False, True, "zstd", {"compress": "lzw"}]), dest=rng.choice(["file", "file", "mem"]), existing=rng.choice([None, None, "no-overwrite", "overwrite"]),
-               api=rng.choice(["write_cog", "write_cog", "layers"]), data_seed=rng.randint(0, 10**6))
+               api=rng.choice(["write_cog", "write_cog", "layers"]), data_seed=rng.randint(0, 10**6), nodata_via=rng.choice(["attrs", "attrs", "kw", "kw-over-attrs"]))
     if isinstance(ovr, list):
         # GDAL refuses level lists that collapse the image to 1x1 more than once: keep levels that leave >= 2 px on the longer side
         ovr = [L for L in ovr if max(ny, nx) / L >= 2]
@@ -78,7 +78,13 @@ def build_array(cfg):
 
     ydim, xdim = gb.dimensions
     dims = {"YX": (ydim, xdim), "SYX": ("band", ydim, xdim), "YXS": (ydim, xdim, "band")}[layout]
-    attrs = {} if cfg["nodata"] is None else {"nodata": cfg["nodata"]}
+    via = cfg.get("nodata_via", "attrs")
+    if cfg["nodata"] is None or via == "kw":
+        attrs = {}
+    elif via == "kw-over-attrs":
+        attrs = {"nodata": 1}  # the keyword has to win over the attribute
+    else:
+        attrs = {"nodata": cfg["nodata"]}
     xx = xr.DataArray(data, dims=dims, coords=xr_coords(gb), attrs=attrs)
     return xx, gb, data
 
@@ -123,6 +129,7 @@ def run_config(mon: Monitor, cfg, workdir: str) -> None:
     ny, nx, layout, ns = cfg["ny"], cfg["nx"], cfg["layout"], cfg["ns"]
     wit = lambda extra=None: {**cfg, **(extra or {})}
     cls = f"{layout}|{cfg['api']}|{cfg['dest']}"
+    via = cfg.get("nodata_via", "attrs") if cfg["nodata"] is not None else "none"
     kw = {}
     if cfg["blocksize"] is not None:
         kw["blocksize"] = cfg["blocksize"]
@@ -132,6 +139,8 @@ def run_config(mon: Monitor, cfg, workdir: str) -> None:
         kw["use_windowed_writes"] = True
     if cfg["intermediate"] is not False:
         kw["intermediate_compression"] = cfg["intermediate"]
+    if cfg["nodata"] is not None and cfg.get("nodata_via", "attrs") != "attrs":
+        kw["nodata"] = cfg["nodata"]
     ext = None
     if cfg["overviews"] == "external":
         ext = external_overviews(xx, gb, data, layout, 2)
@@ -223,7 +232,7 @@ def run_config(mon: Monitor, cfg, workdir: str) -> None:
                     ok_ovr = ok_ovr and ovr_shapes[-1] == (-(-ny // L), -(-nx // L))
             key = ("band-first-cube-ambiguous" if (layout == "SYX" and ns == ny == nx and not ok_pix) else "readback-pixels" if not ok_pix else "readback-georef" if not ok_geo else "readback-nodata")
             mon.check(ok_pix and ok_geo and ok_nodata, "readback", lambda: wit({"shape": back.shape, "expected_shape": exp.shape, "dtype": str(back.dtype), "pixels_ok": bool(ok_pix), "georef_ok": bool(ok_geo), "nodata_ok": bool(ok_nodata)}),
-                      key=key, cls=cls, sig=hsig("c15", repr(cfg)), sample=wit())
+                      key=key, cls=cls + (f"|nodata-{via}" if via not in ("attrs", "none") else ""), sig=hsig("c15", repr(cfg)), sample=wit())
             mon.check(ok_blk, "structure.blocks", lambda: wit({"tiled": tiled, "block_shapes": blk, "expected": want_blk}), key="block-sizes", cls=cls)
             mon.check(ok_ovr, "structure.overviews", lambda: wit({"overview_factors_reported": ovr, "overview_shapes": ovr_shapes, "expected_levels": want_levels, "expected_shapes": [(-(-ny // L), -(-nx // L)) for L in want_levels]}), key="overview-levels", cls=f"{'big' if min(ny, nx) >= 512 else 'small'}|{cfg['overviews'] if isinstance(cfg['overviews'], str) else 'list'}")
             if ext and ok_pix and ok_ovr:
@@ -268,7 +277,7 @@ def run(mon: Monitor, tier: str, seed: int, shard: int, nshards: int) -> None:
                 mon.error("config", e)
         mon.case = None
         for pt, n in [("readback", 200), ("structure.blocks", 200), ("structure.overviews", 200), ("structure.external-overviews", 20), ("overwrite-protocol", 30), ("overwrite-protocol|refuse", 15),
-                      ("overwrite-protocol|replace", 4), ("structure.overviews|big|default", 3), ("structure.overviews|small|default", 20), ("readback|SYX|write_cog|mem", 2), ("readback|YXS|write_cog|file", 3)]:
+                      ("overwrite-protocol|replace", 4), ("structure.overviews|big|default", 3), ("structure.overviews|small|default", 20), ("readback|SYX|write_cog|mem", 2), ("readback|YXS|write_cog|file", 3), ("readback|YX|write_cog|file|nodata-kw", 2), ("readback|YX|write_cog|file|nodata-kw-over-attrs", 1)]:
             mon.floor(pt, n)
     finally:
         shutil.rmtree(workdir, ignore_errors=True)
